@@ -15,7 +15,8 @@ ASSUME = ["which lines carry a timestamp (regex + chrono) is a parameter P of th
 def oracle(ctx):
     a = text_oracles.oracle_bytes(ctx, ctx.q(40, 400))
     b = text_oracles.known_gate_witnesses(ctx)
-    return core.merge_oracles([a, b])
+    c = text_oracles.search_from_disagreements(ctx, getattr(ctx, 'corr_results', []))
+    return core.merge_oracles([a, b, c])
 
 
 def check(ctx):
